@@ -8,8 +8,8 @@ import numpy as np
 
 from core import Ctx, Violation, ints, line
 from props import maskgen_common as G
-from props.c04 import (_guard, acs_lines, answer, circus_thresholds, frames_of, gen_lines, gid, mid, pack_bits,
-                       run, worker, TIMEOUT)
+from props.c04 import (_guard, acs_lines, answer, circus_thresholds, frames_of, gen_lines, gid, hang_violations, mid,
+                       pack_bits, run, worker, TIMEOUT)
 
 PROP = "C06"
 MANIFEST = {
@@ -261,18 +261,15 @@ def oracle(ctx: Ctx, deep: bool = False):
                     seen.add(key)
                     yield Violation(key, what, {"op": "acs-pair", "spec": spec,
                                                 "acs_rows": (acs.get("rows") or [])[:4], "mask_rows": (mask.get("rows") or [])[:4]})
-            for r, tag in ((acs, "acs"), (mask, "mask")):
-                if r.get("hang"):
-                    key = f"hang-{name}"
-                    if key not in seen:
-                        seen.add(key)
-                        yield Violation(key, f"{name} ({tag}) did not return within {r['timeout']} s", {"op": "acs-pair", "spec": spec})
+    yield from hang_violations(seen)
 
 
 def replay(rep: dict) -> bool:
     from direct.common import subsample as S
 
     op = rep.get("op")
+    if op == "hang":
+        return bool(worker().run(rep["spec"], TIMEOUT).get("hang"))
     if op == "acs-pair":
         spec = rep["spec"]
         w = worker()
